@@ -160,31 +160,24 @@ def leanchecker(mods):
     return p.returncode == 0, (p.stdout + p.stderr)[-2000:]
 
 
-_driver_built = False
-DRIVER_FALLBACK = None      # set to the build log when the full driver did not build and `svmodel_core` is used instead
+_driver_built = set()
 
 
-def lean_driver():
-    """Build (if needed) and return the path of the model driver executable. When a file regenerated from the Rust source
-    (Extracted/*Fns.lean) no longer builds, the fallback driver without the operations that run regenerated functions is used, so
-    that the hand-written model can still be run next to the code in the search for a concrete failing input."""
-    global _driver_built, DRIVER_FALLBACK
-    exe = os.path.join(LEAN, ".lake", "build", "bin", "svmodel")
-    core = os.path.join(LEAN, ".lake", "build", "bin", "svmodel_core")
-    if not _driver_built:
-        p = sh(["lake", "build", "svmodel"], cwd=LEAN, timeout=1800)
+def lean_driver(name="svmodel"):
+    """Build (if needed) and return the path of a driver executable. `svmodel` holds the hand-written model only; the operations that
+    run functions regenerated from the Rust source live in one executable per regenerated file (`svx_utils`, `svx_bridge`), so a
+    regenerated file that no longer builds affects only the checks of the property it belongs to."""
+    exe = os.path.join(LEAN, ".lake", "build", "bin", name)
+    if name not in _driver_built:
+        p = sh(["lake", "build", name], cwd=LEAN, timeout=1800)
         if p.returncode != 0:
-            log = (p.stdout + p.stderr)[-6000:]
-            q = sh(["lake", "build", "svmodel_core"], cwd=LEAN, timeout=1800)
-            if q.returncode != 0:
-                raise RuntimeError("model driver failed to build:\n" + log)
-            DRIVER_FALLBACK = log
-        _driver_built = True
-    return core if DRIVER_FALLBACK is not None else exe
+            raise RuntimeError("model driver %s failed to build:\n" % name + (p.stdout + p.stderr)[-6000:])
+        _driver_built.add(name)
+    return exe
 
 
-def run_driver(lines, timeout=3600):
-    exe = lean_driver()
+def run_driver(lines, timeout=3600, name="svmodel"):
+    exe = lean_driver(name)
     p = sh([exe], input="\n".join(lines) + "\n", timeout=timeout)
     if p.returncode != 0:
         raise RuntimeError("model driver crashed: " + p.stderr[-2000:])
@@ -192,6 +185,16 @@ def run_driver(lines, timeout=3600):
     if out and out[-1] == "":
         out.pop()
     return out
+
+
+def run_driver_x(ctx, name, lines, timeout=3600):
+    """Run operations of a driver that holds regenerated functions; when it does not build (the regenerated file is outside the
+    translated subset, or no longer type-checks) the failure is an obligation failure of this property and every line is `unavailable`."""
+    try:
+        return run_driver(lines, timeout, name)
+    except RuntimeError as e:
+        ctx.obligation_failed("driver " + name, str(e)[-1500:])
+        return ["unavailable"] * len(lines)
 
 
 # ---------------------------------------------------------------------------------------------
